@@ -27,6 +27,16 @@ from ..termx import C, mk
 SYM = termx.SYM
 
 
+def container_tag(fn):
+    t = fn['params'][0]['t'].replace('const ', '')
+    m = re.search(r'BlockReader<([^>]*)>', t)
+    if m:
+        return m.group(1)
+    t = t.replace('std::basic_string<char, std::char_traits<char>, std::allocator<char>>', 'std::string')
+    t = re.sub(r', std::allocator<[^<>]*>', '', t)
+    return t
+
+
 def find_fn(db, pred):
     return [f for f in db.fns if pred(f)]
 
@@ -49,8 +59,7 @@ def has_sext(t):
 def analyse_compute(chk, db, fn):
     where = facts.site(fn)
     label = ir.fn_label(fn)
-    elem = re.search(r'BlockReader<([^>]*)>', fn['q'])
-    tag = ' [%s]' % (elem.group(1) if elem else '?')
+    tag = ' [%s]' % container_tag(fn)
     buf = SYM('buf')
     ex = termx.TermExec(db, fn, hooks(buf))
     ps = fn['params']
@@ -191,8 +200,7 @@ def analyse_lengths(chk, db, fn, lengths):
     """HL: the whole function, control flow and all, evaluated for a fixed length over a symbolic buffer and symbolic keys"""
     where = facts.site(fn)
     label = ir.fn_label(fn)
-    elem = re.search(r'BlockReader<([^>]*)>', fn['q'])
-    tag = ' [%s]' % (elem.group(1) if elem else '?')
+    tag = ' [%s]' % container_tag(fn)
     buf, k0, k1 = SYM('buf'), SYM('k0'), SYM('k1')
     bad = []
     for n in lengths:
@@ -225,7 +233,11 @@ def rules(chk, db):
     chk.rule('W', 'array wrapper / BlockReader expose all elements in order with the keys in order', minimum=3)
     chk.rule('X', 'no compile-time/run-time divergence in the hash functions', minimum=1)
     sip = [f for f in db.fns if f.get('rec', '').endswith('::SipHash') and 'body' in f]
-    comp = [f for f in sip if f['n'] == 'Compute' and f['params'] and 'BlockReader' in f['params'][0]['t']]
+    comp = [f for f in sip if f['n'] == 'Compute' and f['params'] and '(&)[' not in f['params'][0]['t']]
+    fixture = any(f['file'].startswith('nop/fx_') for f in sip)
+    if not any('BlockReader' in f['params'][0]['t'] for f in comp) or (not fixture and not any('BlockReader' not in f['params'][0]['t'] for f in comp)):
+        chk.unanalysable('H3', 'nop/utility/sip_hash.h', 'expected SipHash::Compute instances over BlockReader and over generic containers')
+        return
     if not comp:
         chk.unanalysable('H3', 'nop/utility/sip_hash.h', 'no SipHash::Compute(BlockReader) instance')
         return
